@@ -1,12 +1,16 @@
 """C19 - ordered lock and counter: FIFO, exclusive, gap-free, never wedged.
 
  (1) TLC, exhaustive: OrderedLock.tla (3 threads x 1 round, every breaker; 2 threads x 2 rounds with
-     liveness under weak fairness; thorough: 3 x 2).
+     liveness under weak fairness; thorough: 3 x 2); the same with reset() called at any moment by one more caller;
+     probe: a reset() that drops a broken lock's queue entries must violate the model.
  (2) Real code under detsched: preemption-bounded DFS over schedules (small) + random/PCT (bigger),
      with an exception injected in any one critical section; hang = detsched verdict; outcomes and
      counter values checked against the arrival order.
  (3) Every recorded execution is validated as a behaviour of OrderedLock.tla (OrderedLockTrace, one TLC batch),
      all invariants evaluated at every step.
+ (4) Spec -> code: the complete behaviours of OrderedLockGen.tla (OrderedLock.tla at code grain, with a labelled history;
+     enumerated exhaustively by TLC for the small constants, sampled with -simulate for larger ones) are forced onto the real
+     lock by a guided scheduler; the code must follow each, event by event and with the model's final outcomes.
 """
 from __future__ import annotations
 
@@ -30,6 +34,14 @@ def model_part(ctx):
             ("OrderedLock_live.cfg", "liveness (WF per thread) 2 threads x 2 rounds, any breaker", 300)]
     if not ctx.quick:
         runs.append(("OrderedLock_big.cfg", "exhaustive 3 threads x 2 rounds, any breaker", 1800))
+    runs += [("OrderedLock_reset.cfg", "exhaustive 3 threads x 1 round, any breaker, reset() called up to 2 times at any moment", 600),
+             ("OrderedLock_resetlive.cfg", "liveness with one reset() at any moment, 2 threads x 2 rounds", 600)]
+    # probe: a reset() that drops the entries of a broken lock's deque (instead of refusing) must break the model
+    res = run_tlc("OrderedLock", "OrderedLock_resetprobe.cfg", "c19-resetprobe", timeout_s=600)
+    require_ok(res, "reset probe")
+    ctx.add_tlc(res, "probe: reset() that drops a broken lock's queue entries lets a queued caller in (must be violated)")
+    if res.ok or res.error_kind not in ("invariant", "property"):
+        raise MachineryError("probe: expected OrderedLock_resetprobe.cfg to violate an invariant")
     for cfg, label, to in runs:
         res = run_tlc("OrderedLock", cfg, "c19-" + cfg[:-4], timeout_s=to)
         require_ok(res, label)
@@ -38,7 +50,7 @@ def model_part(ctx):
             ctx.violation("model-" + str(res.violated), f"TLC: {res.violated} violated in {cfg}",
                           {"kind": "tlc", "cfg": cfg, "trace": res.trace[-12:]})
         else:
-            vacuity_guard(res, ACTIONS, cfg)
+            vacuity_guard(res, ACTIONS + (["X1", "X2", "X3"] if "reset" in cfg else []), cfg)
 
 
 def expected_outcomes(r):
@@ -75,6 +87,24 @@ def check_run(ctx, r, scen):
         if oc[br] not in ("own_exception", "lock_error"):
             ctx.violation("breaker-outcome", f"raising holder got {oc[br]}", scen)
             return False
+    # "every current acquirer gets an ordered-lock error": the calls queued behind the holder when the lock broke
+    evs = r["evs"]
+    bk = next((k for k, e in enumerate(evs) if e["b"]), None)
+    if bk is not None and not r["counter_mode"]:
+        rnd = {}
+        queued = {}
+        for e in evs[:bk]:
+            if e["ev"] == "EvNew":
+                rnd[e["t"]] = rnd.get(e["t"], 0) + 1
+                queued[e["t"]] = rnd[e["t"]]
+            elif e["ev"] == "AcqRet":
+                queued.pop(e["t"], None)
+        for t, k in queued.items():
+            c = f"{t}:{k}"
+            if c != br and oc.get(c) != "lock_error":
+                ctx.violation("queued-caller-not-failed", f"{c} was queued when the lock broke and finished with {oc.get(c)!r} "
+                              f"(resets: {r.get('reset_results')})", scen)
+                return False
     vals = sorted(r["got"].values())
     if vals != list(range(1, len(vals) + 1)):
         ctx.violation("counter-gap", f"counter values {vals} are not 1..n", scen)
@@ -87,7 +117,7 @@ def impl_part(ctx):
     traces, scens = [], []
 
     def record(r, scen):
-        ctx.case(("run", scen["n"], scen["rounds"], str(scen["breaker"]), scen["mode"], tuple(r["choices"] or [])[:400]))
+        ctx.case(("run", scen["n"], scen["rounds"], str(scen["breaker"]), scen["mode"], scen.get("resets", 0), tuple(r["choices"] or [])[:400]))
         ok = check_run(ctx, r, scen)
         if r["verdict"] is None:
             traces.append({"breaker": r["breaker"], "cm": bool(r["counter_mode"]), "evs": r["evs"]})
@@ -103,6 +133,14 @@ def impl_part(ctx):
             record(r, {"kind": "lock", "n": 2, "rounds": 1, "breaker": breaker, "mode": "dfs",
                        "counter_mode": False, "choices": r["choices"]})
         ctx.notes.setdefault("dfs_runs", {})[str(breaker)] = cnt
+    # (a') the same with one reset() call at any moment (also 3 threads: one holder raising, one queued, one arriving later)
+    for n, breaker, nres in [(2, ("t1", 1), 1), (2, ("t2", 1), 1), (2, None, 1), (3, ("t1", 1), 2)]:
+        cnt = 0
+        for r, st in explore(lambda s, b=breaker, n=n, k=nres: run_lock(n, 1, b, s, resets=k), max_preempt=2, max_runs=budget):
+            cnt += 1
+            record(r, {"kind": "lock", "n": n, "rounds": 1, "breaker": breaker, "mode": "dfs", "resets": nres,
+                       "counter_mode": False, "choices": r["choices"]})
+        ctx.notes.setdefault("dfs_runs_reset", {})[f"{n}/{breaker}/{nres}"] = cnt
     # (b) random / PCT: 3-4 threads x 2 rounds, any breaker; counter mode too
     nrand = 120 if ctx.quick else 3000
     for i in range(nrand):
@@ -113,12 +151,109 @@ def impl_part(ctx):
         breaker = None if (counter_mode or rng.random() < 0.25) else rng.choice(calls)
         seed = rng.randrange(1 << 30)
         strat = ds.PCTStrategy(seed, depth=rng.choice([1, 2, 3]), est_steps=120) if i % 2 else ds.RandomStrategy(seed)
-        r = run_lock(n, rounds, breaker, strat, counter_mode=counter_mode)
+        nres = 0 if counter_mode else rng.choice([0, 0, 1, 2, 3])
+        r = run_lock(n, rounds, breaker, strat, counter_mode=counter_mode, resets=nres)
         record(r, {"kind": "lock", "n": n, "rounds": rounds, "breaker": breaker, "mode": "pct" if i % 2 else "random",
-                   "counter_mode": counter_mode, "choices": r["choices"]})
+                   "counter_mode": counter_mode, "resets": nres, "choices": r["choices"]})
     validate_traces(ctx, traces, scens)
     if traces:
         ctx.sample({"real_trace_excerpt": traces[-1]["evs"][:12], "breaker": traces[-1]["breaker"]})
+
+
+def gen_behaviours(ctx, cfg, name, label, simulate=None, depth=None, timeout_s=900):
+    """Labelled complete behaviours of OrderedLockGen.tla (code-grain restriction of OrderedLock.tla), as printed by TLC."""
+    res = run_tlc("OrderedLockGen", cfg, name, workers=1, timeout_s=timeout_s, coverage=False, simulate=simulate, depth=depth)
+    if not (res.ok or (simulate and res.error_kind in (None, "timeout"))):
+        require_ok(res, label)
+        if res.error_kind in ("invariant", "property"):
+            ctx.violation("model-" + str(res.violated), f"TLC: {res.violated} violated in {cfg}", {"kind": "tlc", "cfg": cfg, "trace": res.trace[-12:]})
+            return []
+        raise MachineryError(f"behaviour generation failed: {res.error_kind}; see {res.out_path}")
+    ctx.add_tlc(res, label, exhaustive=simulate is None)
+    out, seen = [], set()
+    for line in open(res.out_path, errors="replace"):
+        if not line.startswith('<<"BEHAVIOUR", "'):
+            continue
+        body = line.strip()[len('<<"BEHAVIOUR", '):-2]
+        d = json.loads(json.loads(body))
+        key = json.dumps(d["hist"], sort_keys=True) + json.dumps(d["breaker"])
+        if key in seen:
+            continue
+        seen.add(key)
+        fix = lambda m: {"%s:%s" % tuple(re.match(r'<<"(\w+)", (\d+)>>', k).groups()): v for k, v in m.items()}
+        d["outcome"], d["got"] = fix(d["outcome"]), fix(d["got"])
+        out.append(d)
+    if not out:
+        raise MachineryError(f"no behaviour generated by {cfg}; see {res.out_path}")
+    return out
+
+
+def replay_part(ctx):
+    """Spec -> code: every complete code-grain behaviour of the model (exhaustive for 2 threads x 1 round with one reset();
+    sampled by TLC -simulate for bigger constants) is forced onto the real OrderedLock; the real execution must follow it
+    event for event (each with queue length and broken flag) and end with the model's outcomes and counter values."""
+    from harness.lock_harness import GuidedStrategy, UNLOGGED, expected_events
+    sets = [("OrderedLockGen_2x1.cfg", "all complete code-grain behaviours: 2 threads x 1 round, any breaker, <= 1 reset()", None, None, 2, 1, 1)]
+    nsim = 400 if ctx.quick else 6000
+    sets.append(("OrderedLockGen_3x2.cfg", f"{nsim} simulated behaviours: 3 threads x 2 rounds, any breaker, <= 2 reset()",
+                 f"num={nsim}", 400, 3, 2, 2))
+    if not ctx.quick:
+        sets.append(("OrderedLockGen_3x1.cfg", "all complete code-grain behaviours: 3 threads x 1 round, any breaker, no reset()", None, None, 3, 1, 0))
+    actions = set()
+    total = 0
+    for cfg, label, sim, depth, n, rounds, nres in sets:
+        behs = gen_behaviours(ctx, cfg, "c19-gen-" + cfg[:-4], label, simulate=sim, depth=depth)
+        for b in behs:
+            exp = expected_events(b["hist"])
+            actions |= {h["a"] for h in b["hist"]}
+            breaker = None if b["breaker"][0] == "NoCall" else tuple(b["breaker"])
+            k = sum(1 for h in b["hist"] if h["a"] == "X1")
+            strat = GuidedStrategy(exp)
+            r = run_lock(n, rounds, breaker, strat, resets=k)
+            total += 1
+            scen = {"kind": "lock-replay", "n": n, "rounds": rounds, "breaker": breaker, "resets": k, "hist": b["hist"],
+                    "outcome": b["outcome"], "got": b["got"]}
+            ctx.case(("replay", cfg, json.dumps(b["hist"], sort_keys=True), str(breaker)))
+            verdict = replay_verdict(r, strat, exp, b)
+            if verdict:
+                ctx.violation("spec-behaviour-not-followed", verdict, scen)
+    # the binding binds: a behaviour with one corrupted field (queue length of its last event) must be rejected
+    exp = [dict(e) for e in expected_events(behs[0]["hist"])]
+    exp[-1]["q"] += 1
+    strat = GuidedStrategy(exp)
+    r = run_lock(n, rounds, None if behs[0]["breaker"][0] == "NoCall" else tuple(behs[0]["breaker"]), strat,
+                 resets=sum(1 for h in behs[0]["hist"] if h["a"] == "X1"))
+    if replay_verdict(r, strat, exp, behs[0]) is None:
+        raise MachineryError("replay self-test: a corrupted model behaviour was accepted")
+    ctx.notes["replayed_spec_behaviours"] = total
+    ctx.notes["replayed_actions"] = sorted(actions)
+    missing = set(["A1", "A2", "A2b", "A2s", "A3", "A3x", "A4", "A5", "CS", "E1", "E2", "E2s", "E2e", "E3", "R1", "R2", "R2s", "R3",
+                   "X1", "X2", "X3"]) - actions
+    if missing:
+        raise MachineryError(f"replayed behaviours never take actions {sorted(missing)}")
+
+
+def replay_verdict(r, strat, exp, b):
+    from harness.lock_harness import UNLOGGED
+    if strat.diverged is not None:
+        return f"the real OrderedLock cannot follow a behaviour of the model: at event {strat.diverged['at_event']} the model lets " \
+               f"{strat.diverged['want']} happen, enabled threads {strat.diverged['enabled']}" + (" (thread runs without producing it)" if strat.diverged["stalled"] else "")
+    if r["verdict"] is not None:
+        return f"forced execution did not finish: {r['verdict']} {r['verdict_info']}"
+    got = [e for e in r["evs"] if e["ev"] not in UNLOGGED]
+    for i, (g, e) in enumerate(zip(got, exp)):
+        for k, v in e.items():
+            if g.get(k) != v:
+                return f"event {i}: the model expects {e}, the code logged {({k2: g.get(k2) for k2 in e})}"
+    if len(got) != len(exp):
+        return f"the code logged {len(got)} events, the model behaviour has {len(exp)}; first extra: {(got + exp)[min(len(got), len(exp))]}"
+    for c, o in b["outcome"].items():
+        if r["outcomes"].get(c) != o:
+            return f"call {c}: model outcome {o}, code outcome {r['outcomes'].get(c)}"
+    for c, v in b["got"].items():
+        if r["got"].get(c, 0) != v:
+            return f"call {c}: model counter value {v}, code {r['got'].get(c, 0)}"
+    return None
 
 
 def parse_rejects(out_path):
@@ -170,9 +305,10 @@ def run(ctx):
                 "distinct (threads, rounds, breaker, schedule) execution of the real OrderedLock/OrderedCounter under detsched, "
                 "distinct by its full choice sequence; each is checked directly and validated as a TLA+ behaviour")
     ctx.assumptions += ["detsched shims stand in for threading.Lock/Event (preemption at every primitive operation and after every wake-up-causing one)",
-                        "bounded: <= 4 threads, <= 2 rounds, at most one raising critical section"]
+                        "bounded: <= 4 threads, <= 2 rounds, at most one raising critical section, <= 3 reset() calls by one more thread"]
     model_part(ctx)
     impl_part(ctx)
+    replay_part(ctx)
 
 
 def replay(d):
@@ -181,7 +317,8 @@ def replay(d):
         print(json.dumps(d, indent=1)[:4000])
         return 0
     br = tuple(sc["breaker"]) if sc.get("breaker") else None
-    r = run_lock(sc["n"], sc["rounds"], br, ds.ScriptedStrategy(sc["choices"]), counter_mode=sc.get("counter_mode", False))
+    r = run_lock(sc["n"], sc["rounds"], br, ds.ScriptedStrategy(sc["choices"]), counter_mode=sc.get("counter_mode", False),
+                 resets=sc.get("resets", 0))
     print("verdict", r["verdict"], r["verdict_info"])
     print("outcomes", r["outcomes"], "got", r["got"])
     for e in r["evs"]:
